@@ -28,6 +28,17 @@ use digest::Digest;
 use rug::{integer::Order, Complete, Integer};
 use serde::{Deserialize, Serialize};
 
+/// Bit length of the blinding value for a response `blinding + challenge * secret`: the bits of the secret, the
+/// bits of the Fiat-Shamir challenge (hash output) and `lin` bits of slack, so that dividing a response by the
+/// challenge (or by another response) reveals nothing about the secret.
+fn blinding_bits<CS>(secret_bits: u32) -> u32
+where
+    CS: CLCiphersuite,
+    CS::HashAlg: Digest,
+{
+    secret_bits + 8 * (<CS::HashAlg as Digest>::output_size() as u32) + CS::lin
+}
+
 #[derive(Clone, PartialEq, Eq, Debug, Serialize, Deserialize)]
 pub(crate) struct NISP2Commitments {
     challenge: Integer,
@@ -65,11 +76,11 @@ impl NISP2Commitments {
         // Initialize multiple random values, equivalent to secrets m_i and stored in a list
         let mut omega: Vec<Integer> = Vec::new();
         for _i in unrevealed_message_indexes {
-            omega.push(random_bits(CS::lm));
+            omega.push(random_bits(blinding_bits::<CS>(CS::lm)));
         }
 
-        let mu_1 = random_bits(CS::ln);
-        let mu_2 = random_bits(CS::ln);
+        let mu_1 = random_bits(blinding_bits::<CS>(CS::ln));
+        let mu_2 = random_bits(blinding_bits::<CS>(CS::ln));
 
         let mut w_1 = Integer::from(1);
         let mut w_2 = Integer::from(1);
@@ -224,8 +235,8 @@ impl NISPSecrets {
         CS: CLCiphersuite,
         CS::HashAlg: Digest,
     {
-        let r1 = random_bits(CS::lm);
-        let r2 = random_bits(CS::ln);
+        let r1 = random_bits(blinding_bits::<CS>(CS::ln));
+        let r2 = random_bits(blinding_bits::<CS>(CS::ln));
 
         let t = (Integer::from(g1.pow_mod_ref(&r1, &n1).unwrap())
             * Integer::from(h1.pow_mod_ref(&r2, &n1).unwrap()))
@@ -296,10 +307,10 @@ impl NISPMultiSecrets {
 
         let mut r1: Vec<Integer> = Vec::new();
         for _ in unrevealed_message_indexes {
-            r1.push(random_bits(CS::lm));
+            r1.push(random_bits(blinding_bits::<CS>(CS::lm)));
         }
 
-        let r2 = random_bits(CS::ln);
+        let r2 = random_bits(blinding_bits::<CS>(CS::ln));
 
         let h1 = &signer_pk.b;
         let n1 = &signer_pk.N;
@@ -454,21 +465,21 @@ impl NISPSignaturePoK {
         let (_Ce, re) = (C_Ce.value(), C_Ce.randomness());
 
         let (r_1, r_2, r_3, r_4, r_6, r_7, r_8, r_9) = (
-            random_bits(CS::ln),
-            random_bits(CS::ln),
-            random_bits(CS::ln),
-            random_bits(CS::ln),
-            random_bits(CS::ln),
-            random_bits(CS::ln),
-            random_bits(CS::ln),
-            random_bits(CS::ln),
+            random_bits(blinding_bits::<CS>(CS::ln)),
+            random_bits(blinding_bits::<CS>(CS::ln + CS::le)),
+            random_bits(blinding_bits::<CS>(CS::ln)),
+            random_bits(blinding_bits::<CS>(CS::le)),
+            random_bits(blinding_bits::<CS>(CS::ls)),
+            random_bits(blinding_bits::<CS>(CS::ln)),
+            random_bits(blinding_bits::<CS>(CS::ln + CS::le)),
+            random_bits(blinding_bits::<CS>(CS::ln)),
         );
 
         let mut r_5: Vec<Integer> = Vec::new();
 
         for i in 0..n_attr {
             if unrevealed_message_indexes.contains(&i) {
-                r_5.push(random_bits(CS::ln));
+                r_5.push(random_bits(blinding_bits::<CS>(CS::lm)));
             } else {
                 r_5.push(messages.get(i).expect("index overflow").value.clone());
             }
